@@ -654,3 +654,52 @@ S('c07-mode-constant', ['C07', 'C04'], [(CREATOR,
   'mode through a constant, directories in a loop')
 S('c07-xdg-and-form', ['C07'], [('trashcli/lib/trash_dirs.py',
   "    if environ.get('XDG_DATA_HOME'):", "    if 'XDG_DATA_HOME' in environ and environ['XDG_DATA_HOME']:")], 'membership and truthiness')
+
+# ------------------------------------------------------------------ C08
+SECCHK = 'trashcli/put/janitor_tools/security_check.py'
+SCANNER = 'trashcli/trash_dirs_scanner.py'
+RTD = 'trashcli/restore/trash_directories.py'
+F('c08-put-no-symlink-test', {'C08': ['R08.3']}, [(SECCHK,
+  "            if self.fs.islink(parent):\n                return Left(TrashDirIsNotSecureBecauseSymLink())\n", "")],
+  'write side no longer rejects a symlinked .Trash')
+F('c08-read-no-symlink-test', {'C08': ['R08.1']}, [(SCANNER,
+  "        if self.reader.is_symlink(parent_trashdir):\n            return top_trash_dir_invalid_because_parent_is_symlink\n        else:\n            return top_trash_dir_valid",
+  "        return top_trash_dir_valid")],
+  'read side no longer rejects a symlinked .Trash')
+F('c08-found-when-not-sticky', {'C08': ['R08.1']}, [(SCANNER,
+  "                elif result == top_trash_dir_invalid_because_not_sticky:\n                    yield trash_dir_skipped_because_parent_not_sticky, (\n                        top_trash_dir_path,)",
+  "                elif result == top_trash_dir_invalid_because_not_sticky:\n                    yield trash_dir_found, TrashDir(top_trash_dir_path, volume)")],
+  'scanner yields a non-sticky top dir as found')
+F('c08-sticky-on-uid-dir', {'C08': ['R08.1']}, [(SCANNER,
+  "        if not self.reader.is_sticky_dir(parent_trashdir):", "        if not self.reader.is_sticky_dir(path):")],
+  'sticky bit tested on the $uid directory instead of its parent')
+F('c08-put-sticky-on-candidate', {'C08': ['R08.3']}, [(SECCHK,
+  "            if not self.fs.has_sticky_bit(parent):", "            if not self.fs.has_sticky_bit(candidate.trash_dir_path):")],
+  'write side tests the sticky bit on the wrong directory')
+F('fix7-reverted', {'C08': ['R08.1']}, [(RTD,
+  "                if self._can_be_read(path1):\n                    yield path1, volume1",
+  "                yield path1, volume1")], 'restore lists the shared top dir unchecked again')
+F('fix7-not-wired', {'C08': ['R08.1']}, [('trashcli/restore/main.py',
+  "                                             os.environ,\n                                             TopTrashDirRules(\n                                                 FileSystemReader()))",
+  "                                             os.environ)")], 'production wiring does not pass the rules')
+F('c08-list-swallows-skip', {'C08': ['R08.4']}, [(LISTACT,
+  "            elif event == trash_dir_skipped_because_parent_not_sticky:\n                path, = event_args\n                msg = Error(\n                    self.top_trashdir_skipped_because_parent_not_sticky(path))\n                yield msg\n",
+  "")], 'trash-list no longer reports the non-sticky skip')
+F('c08-islink-follow', {'C08': ['R08.1']}, [(FS,
+  "    def is_symlink(self, path):  # type: (str) -> bool\n        return os.path.islink(path)",
+  "    def is_symlink(self, path):  # type: (str) -> bool\n        return os.path.realpath(path) != os.path.abspath(path)")],
+  'symlink test replaced by a realpath comparison (not a no-follow probe)')
+S('c08-checks-reordered', ['C08'], [(SCANNER,
+  """        if not self.reader.is_sticky_dir(parent_trashdir):
+            return top_trash_dir_invalid_because_not_sticky
+        if self.reader.is_symlink(parent_trashdir):
+            return top_trash_dir_invalid_because_parent_is_symlink
+        else:
+            return top_trash_dir_valid""",
+  """        if self.reader.is_symlink(parent_trashdir):
+            return top_trash_dir_invalid_because_parent_is_symlink
+        sticky = self.reader.is_sticky_dir(parent_trashdir)
+        if sticky:
+            return top_trash_dir_valid
+        return top_trash_dir_invalid_because_not_sticky""")],
+  'read-side checks reordered')
